@@ -506,11 +506,12 @@ func parseFormat(origFmt string, separator string, separator2 string, containerF
 	flags := group[1]
 
 	plus := byte(0)
-	hasPlus := hasDelimOnce(flags, origFmt, '+')
-	if hasDelimOnce(flags, origFmt, ' ') {
-		plus = ' '
-	} else if hasPlus {
+	hasSpace := hasDelimOnce(flags, origFmt, ' ')
+	if hasDelimOnce(flags, origFmt, '+') {
+		// A plus sign overrides a space
 		plus = '+'
+	} else if hasSpace {
+		plus = ' '
 	}
 
 	foundDelim := byte(0)
@@ -523,8 +524,8 @@ func parseFormat(origFmt string, separator string, separator2 string, containerF
 		}
 	}
 
-	if foundDelim == 0 && plus == ' ' {
-		foundDelim = plus
+	if foundDelim == 0 && hasSpace {
+		foundDelim = ' '
 	}
 
 	width := -1
